@@ -92,7 +92,7 @@ def benign(args):
             sc = os.path.join(d, "selfcheck.py")
             if os.path.exists(sc):
                 rec["selfcheck_rc"] = run_demo(scratch, sc)[0]
-            for prop in ("C10", "C01", "C17"):
+            for prop in os.environ.get("BENIGN_PROPS", "C10,C01,C17").split(","):
                 rc, cls, dt, out = run_check(prop, scratch, args.runs, args.tier)
                 rec[prop] = "silent" if rc == 0 else f"ALARM rc={rc} {cls}"
                 if rc != 0:
